@@ -266,6 +266,106 @@ def loop_level(ctx):
     return rows, meta
 
 
+def client_level(ctx):
+    """The client endpoint as the network reaches it: forged datagrams with the server's direction mark arrive on the socket of a real UdpClient and go
+    through UdpClient.update(), while the connection is established, while it is DROPPED (no authenticated datagram for more than 5 s) and while it is
+    DISCONNECTING (the server closed it).  Nothing they carry may be delivered, and key, status (as the public API reports it), liveness clock and
+    windows stay as they were."""
+    import srvworld as SW
+    from gateworld import snapshot
+    ADDR = ("10.4.0.1", 3101)
+    rows, meta = [], []
+    kinds = [("crc", t, n) for t in (1, 2, 3, 4, 5, 6, 7) for n in (0, 1, 2)] + [("otherkey", t, 1) for t in (4, 5, 6)] + [("random", t, 0) for t in (2, 4, 5, 6, 7)] + \
+            [("flip", 0, 0), ("truncate", 0, 0), ("retype", 4, 0), ("retype", 5, 0), ("retype", 6, 0)]
+    for sitname in ("established", "dropped", "disconnecting"):
+        w = SW.ServerWorld(seed=ctx.seed, conn_timeout=60.0, temp_timeout=30.0)
+        try:
+            C = w.C
+            cl = w.add_client(1, ADDR)
+            c = w.clients[1]
+            for _ in range(30):
+                w.tick()
+            if not cl.connected():
+                raise Machinery("client level: the honest handshake did not complete")
+            cl.send(w.aid(ADDR).to_bytes(4, "big") + b"GUAR" + (7).to_bytes(4, "big"), retry=-1)
+            for _ in range(10):
+                w.tick()
+            held = [d for d in w.sent_to[ADDR] if len(d) > 12 and d[12] in (4, 6)][-1]      # a genuine server datagram (already received once)
+            if sitname == "dropped":
+                c["deaf"] = True
+                for _ in range(int(5.6 * 60)):
+                    w.tick()
+                if cl.status().value != 5:
+                    raise Machinery("client level: the silent client did not report DROPPED (status %s)" % cl.status())
+            elif sitname == "disconnecting":
+                w.goodbye.add(ADDR)
+                w.ctxt.connections[ADDR].disconnect()
+                for _ in range(6):
+                    w.tick()
+                c["deaf"] = True
+                if cl.status().value != 3:
+                    raise Machinery("client level: the closed client did not report DISCONNECTING (status %s)" % cl.status())
+            c["cut"] = True
+            c["deaf"] = True
+            conn = cl.conn
+            for kind, htype, n in kinds:
+                cur = int(conn.bitfield_pkt.current_seqnum)
+                seq = C.SeqNum((cur + 4) % 65535 + 1)
+                ack = C.SeqNum(max((int(k) for k in conn.pending_acks), default=1))
+                if kind == "crc":
+                    hdr = C.PacketHeader.create(True, int(w.vt.time()), C.PacketType(htype), seq, ack, 0xFFFFFFFF)
+                    msgs = [C.PendingMessage(C.SeqNum(900 + i), C.PacketType(htype), b"EVIL%d" % i, None, C.RetryMode.NONE) for i in range(n)]
+                    raw = C.Packet.create(hdr, msgs).to_bytes(None)
+                elif kind == "otherkey":
+                    hdr = C.PacketHeader.create(True, int(w.vt.time()), C.PacketType(htype), seq, ack, 0)
+                    raw = C.Packet.create(hdr, [C.PendingMessage(C.SeqNum(901), C.PacketType(htype), b"otherkey", None, C.RetryMode.NONE)]).to_bytes(b"k" * 16)
+                elif kind == "random":
+                    hdr = C.PacketHeader.create(True, int(w.vt.time()), C.PacketType(htype), seq, ack, 0)
+                    raw = hdr.to_bytes()[:20] + os.urandom(40)
+                elif kind == "flip":
+                    t = bytearray(held)
+                    t[len(t) - 3] ^= 0x10
+                    raw = bytes(t)
+                elif kind == "truncate":
+                    raw = held[:len(held) - 5]
+                else:
+                    t = bytearray(held)
+                    if t[12] == htype:
+                        continue
+                    t[12] = htype
+                    raw = bytes(t)
+                before = snapshot(conn)
+                pub0 = (cl.status().value, bool(cl.connected()), cl.token())
+                got0 = len(c["got"])
+                c["sock"].inbox.append(raw)
+                err = ""
+                mid = pub0
+                try:
+                    cl.update()
+                    mid = (cl.status().value, bool(cl.connected()), cl.token())        # what the application sees between two frames
+                    cl.update()
+                except Exception as e:
+                    err = type(e).__name__
+                got = [bytes(m) for _, m in cl.getMessages()]
+                after = snapshot(cl.conn) if cl.conn is not None else {}
+                pub1 = (cl.status().value, bool(cl.connected()), cl.token())
+                changed = sorted(k for k in before if after.get(k) != before[k] and k not in ("out", "seqs", "pend", "rmsg", "retry"))      # (the client itself keeps sending keep-alives)
+                if pub1 != pub0 or mid != pub0:
+                    changed.append("public-status %s -> %s -> %s" % (pub0, mid, pub1))
+                if cl.conn is not conn:
+                    changed.append("connection-object-replaced")
+                o = dict(ret="exc" if err else "false", changed=changed, app=int(bool(got)), keychg=int(pub1 != pub0 or mid != pub0 or any(after.get(k) != before[k] for k in ("key", "token", "status"))), dropped=0, expect="noeffect")
+                rows.append(o)
+                meta.append((dict(side="client API, " + sitname, keyed=True), dict(kind=kind, htype=htype, count=n), raw))
+                ctx.case(("client", sitname, kind, htype, n))
+                if changed or got or err:
+                    break          # the state moved (a violation): the remaining classes of this situation would be judged against a disturbed endpoint
+        finally:
+            w.close()
+    ctx.extra["client_api_injections"] = len(rows)
+    return rows, meta
+
+
 def run(ctx):
     ctx.level = "model_checking"
     ctx.rule = ("table: one injection per (situation, datagram class) enumerated by TLC; sweep: one injection per byte-level mutation of a genuine datagram; distinct = injections; "
@@ -288,6 +388,9 @@ def run(ctx):
         rows3, meta3 = loop_level(ctx)
         rows += rows3
         meta += meta3
+        rows4, meta4 = client_level(ctx)
+        rows += rows4
+        meta += meta4
         path = os.path.join(wd, "obs.json")
         open(path, "w").write(json.dumps(rows))
         j = ctx.mc("Obs_Gate", "INIT ObsInit\nNEXT GNext\nINVARIANT AllOK\nALIAS Where\nCHECK_DEADLOCK FALSE\n", env=dict(OUT_FILE=path, OBS_FILE=path), coverage=False,
